@@ -46,6 +46,64 @@ CLAIMS = {
         note="solver optimality for the trace clause is an explicit hypothesis; eigenvalue thresholding and matrix inverse "
              "are numpy (they only influence W and printed diagnostics); MOSEK side inherits F-C11b",
         technique="Coq proof over a plan regenerated from the source + scripted-solver correspondence"),
+    "C02": dict(
+        text="Coq theorems: for every object store with empty or coherent caches and every solution, the value returned by "
+             "the modelled eval of a derived point / expression / constraint / LMI is the same linear / bilinear combination "
+             "of its operands' values (objects built after the solve included); if the leaf vectors reproduce G+ the value is "
+             "the Gram reading the solver saw; leaf i gets column i / entry i; at a point optimal in tau the objective equals "
+             "the smallest metric. The unguarded statement is refuted for derived points evaluated after a new leaf point was "
+             "created (known finding F-C02a). Tie: random programs run on the real code with an injected rational solution "
+             "(fake wrapper registered from outside), values compared with the model; real SCS instances measured.",
+        ref="DESIGN.md 5.2",
+        note="numpy eigh / clipping / QR are trusted and measured (P^T P vs G+); solver optimality is an explicit hypothesis "
+             "of the objective clause; primal <= dual is C01's weak duality",
+        technique="Coq proof (induction over decompositions; refutation witness) + injected-solution correspondence"),
+    "C04": dict(
+        text="Coq theorems: the pair generator produces a constraint for exactly the required pairs, each once (all ordered "
+             "distinct pairs, or unordered pairs under the symmetry flag; every formula used with the flag is proved "
+             "symmetric, so halving loses nothing); each of the 41 formulas REGENERATED from the sources denotes exactly the "
+             "literature's reference condition; for every shipped plan the generated set is equivalent to the documented "
+             "conditions on all required pairs, and is invariant under permutations of the recorded samples (LMIs up to "
+             "congruence). Refuted with witnesses where PEPit is wrong: skew-symmetric diagonal conditions (F-C04b), "
+             "block-smooth tuple equality (F-C04c). Tie: translator + exact correspondence of set_class_constraints() on "
+             "all 24 classes and of the two generic generators on arbitrary list pairs.",
+        ref="DESIGN.md 5.4",
+        note="sufficiency of the interpolation conditions (a finite primal value is attained by a real member) is the cited "
+             "literature, not proved: that half of the property is partial",
+        technique="Coq proof over formulas/plans regenerated from the source + model/implementation correspondence"),
+    "C07": dict(
+        text="Coq theorems: an invariant (one value per point; one gradient per point for differentiable functions; every "
+             "composite sample is the weighted sum of samples recorded at that point for its terms, under every valuation; "
+             "stationary points have zero total gradient; lookup identifies exactly equal decompositions; reuse flag = "
+             "conjunction) holds initially and is preserved by every oracle / gradient / value / stationary / fixed-point / "
+             "add_point / combine operation, hence after every op sequence, under a decidable guard (no zero weight after "
+             "merging, no explicit zero coefficient in a query point); without the guard it is refuted with witnesses (known "
+             "findings F-C07a-c). Tie: exhaustive short and random long op sequences compared exactly with the model.",
+        ref="DESIGN.md 5.7",
+        note="object aliasing is not observable in the dumps (only mutation is the idempotent prune); steps call add_point "
+             "on not-yet-recorded points (scoping guard)",
+        technique="Coq proof (invariant by induction over operation sequences; refutation witnesses) + correspondence"),
+    "C13": dict(
+        text="Coq theorems for every op sequence (edits, solves, failed solves, evaluations): what the k-th solve sends is a "
+             "function of the declared model and the fresh objective index only; the amount of data sent does not grow with "
+             "the number of solves (class LMIs and partition constraints included, after the two fix: commits); after a "
+             "finite solve every object without an older cache evaluates to the latest solution; sent item k carries dual k. "
+             "Refuted with witnesses: stale caches (F-C13a), values surviving a failed solve (F-C13d). Tie: programs with 2-4 "
+             "solves and edits run on the real code with injected solutions, compared with the model; real SCS re-solves.",
+        ref="DESIGN.md 5.13",
+        note="what a class / partition generates is input data here (C03/C04/C15); the extra objective leaf per solve is "
+             "reported as behaviour",
+        technique="Coq proof (induction over op sequences; refutation witnesses) + injected-solution correspondence"),
+    "C17": dict(
+        text="Coq theorems: for every plan item and all sample lists the table stored under the condition name has one row / "
+             "column per sample, the cell (i,j) holds exactly the constraint generated for that ordered pair (the same object "
+             "that is in the class-constraint list), 0 elsewhere; the dual table mirrors it cell by cell; names contain "
+             "function id and condition and determine the pair for unnamed samples; block-smooth per-block tables likewise "
+             "(after the fix: commit). Refuted for LinearOperator's unnamed, untabulated cross equalities (F-C17b). Tie: "
+             "exact correspondence of tables, labels, names and get_class_constraints_duals() with position-tagged duals.",
+        ref="DESIGN.md 5.17",
+        note="name injectivity proved for unnamed points only (user names may collide)",
+        technique="Coq proof (lists of any length) + model/implementation correspondence"),
     "C05": dict(
         text="Coq theorems: for every expression dictionary with unique keys, every symmetric G and every F the dense "
              "(cvxpy) data and the sparse lower-triangular triples (MOSEK storage reading) denote exactly the expression's "
